@@ -53,7 +53,7 @@ func runC20(x *mc.X) {
 	lat := mc.Pick(x, "origin-latency", []string{"0", "1s", "T-1ns", "T+1ns", "2T", "never"})
 	outcome := mc.Pick(x, "background-outcome", []string{"304", "200", "500", "error", "body-error"})
 	validators := mc.Pick(x, "validators", []string{"etag", "lm", "both", "none"})
-	cctx := mc.Pick(x, "caller-context", []string{"background", "cancelled-before", "cancelled-after-return", "cancelled-at-T/2", "deadline-before-answer"})
+	cctx := mc.Pick(x, "caller-context", []string{"background", "cancelled-before", "cancelled-after-return", "cancelled-at-T/2", "deadline-before-answer", "deadline-long-after-the-timeout"})
 	second := mc.Pick(x, "second-request", []string{"none", "during", "after"})
 	logger := mc.Pick(x, "logger", []string{"", "text"})
 	window := mc.Pick(x, "swr-window", []string{"100000", "7"}) // 7: only 2 s of the window are left when the stale response is served
@@ -184,6 +184,12 @@ func runC20(x *mc.X) {
 		ctx, c2 = context.WithTimeout(ctx, d)
 		defer c2()
 		callerEnds = d
+	}
+	if cctx == "deadline-long-after-the-timeout" { // e.g. http.Client.Timeout: the caller's deadline does not replace the cache's own
+		var c2 context.CancelFunc
+		ctx, c2 = context.WithTimeout(ctx, 10*teff)
+		defer c2()
+		callerEnds = 10 * teff
 	}
 	req := world.Req("GET", U, "X-Req", "first").WithContext(ctx)
 	w.NoWait = true
